@@ -251,7 +251,7 @@ impl Monitor for C03 {
             );
         }
         if let Some((sender, msg, _)) = engine_msg(&st.op) {
-            let allowed = [sender.to_string(), w.engine.to_string(), w.insurance.to_string(), w.fee_pool.to_string()];
+            let allowed = [sender.to_string(), w.engine.to_string(), w.insurance.to_string(), st.pre.eng.fee_pool.clone()];
             for (k, dl) in &moved {
                 if !allowed.contains(k) {
                     r.violation(
@@ -297,7 +297,7 @@ pub fn role_of(w: &World, k: &str) -> &'static str {
         "engine"
     } else if k == w.insurance.as_str() {
         "insurance"
-    } else if k == w.fee_pool.as_str() {
+    } else if k == w.fee_pool.as_str() || k == "feepool2" {
         "fee_pool"
     } else if w.vamm_idx(k).is_some() {
         "vamm"
